@@ -109,8 +109,11 @@ def get_facts(config="default", repo=None):
         fcntl.flock(lock, fcntl.LOCK_UN)
     with open(out) as fh:
         facts = json.load(fh)
-    f = Facts(facts, repo)
     import norm
+    renamed = norm.rename_fns(facts)
+    renamed.update(norm.rename_variants(facts))
+    f = Facts(facts, repo)
+    f.renamed_fns = renamed
     norm.apply(f)
     return f, info
 
